@@ -800,6 +800,8 @@ val tbl_shrink_target : table -> nat -> nat
 
 val tbl_can_shrink : table -> nat -> bool
 
+val w_shrink_core : bool -> bool mW
+
 val w_shrink : bool -> bool mW
 
 val getQ : nat -> qobj mW
